@@ -2287,6 +2287,164 @@ def r20_6(prog, rep, rid='R20.6'):
 
 
 # ------------------------------------------------------------------------------
+# R20.15  the worker-wide task environment (an attribute built from os.environ
+#         when the worker is constructed) is owned by the worker: what a
+#         request writes goes into a fresh copy, never through an alias
+#
+_ENV_WRITES = ('update', 'setdefault', 'pop', 'popitem', 'clear',
+               '__setitem__', '__delitem__')
+
+
+def _mentions(e, names):
+    return any(isinstance(x, ast.Attribute) and unparse(x) in names
+               for x in ast.walk(e))
+
+
+def _env_attrs(classes):
+    """`self.X` built from os.environ in a method of the worker classes, and
+    the methods that build them"""
+    attrs, builders = set(), set()
+    for C in classes:
+        for m in C.methods.values():
+            for s in ast.walk(m.node):
+                if isinstance(s, ast.Assign):
+                    for t in s.targets:
+                        if isinstance(t, ast.Attribute) and \
+                                unparse(t.value) == 'self' and \
+                                (_is_env_copy(s.value) or (
+                                    isinstance(s.value, ast.DictComp) and any(
+                                        unparse(x) == ENV
+                                        for c in s.value.generators
+                                        for x in ast.walk(c.iter))) or (
+                                    isinstance(s.value, ast.Dict) and any(
+                                        k is None and unparse(v) == ENV
+                                        for k, v in zip(s.value.keys,
+                                                        s.value.values)))):
+                            attrs.add(unparse(t))
+                elif isinstance(s, ast.For) and any(
+                        unparse(x) == ENV for x in ast.walk(s.iter)):
+                    for b in ast.walk(s):
+                        if not isinstance(b, ast.Assign):
+                            continue
+                        for t in b.targets:
+                            if isinstance(t, ast.Subscript) and \
+                                    isinstance(t.value, ast.Attribute) and \
+                                    unparse(t.value.value) == 'self':
+                                attrs.add(unparse(t.value))
+    for C in classes:
+        for m in C.methods.values():
+            for s in ast.walk(m.node):
+                if isinstance(s, ast.Assign) and any(
+                        unparse(t) in attrs for t in s.targets):
+                    builders.add(id(m.node))
+    return attrs, builders
+
+
+def _alias_defs(g, v, nid, attrs, depth=0):
+    """(is an alias of one of attrs, derived from one of attrs) for the value
+    expression v evaluated at cfg node nid"""
+    if v is None or depth > 4:
+        return False, False
+    if isinstance(v, ast.Attribute) and unparse(v) in attrs:
+        return True, True
+    if isinstance(v, ast.IfExp):
+        parts = [v.body, v.orelse]
+    elif isinstance(v, ast.BoolOp):
+        parts = v.values
+    elif isinstance(v, ast.Name):
+        al = dv = False
+        for dn, dvv in reaching_defs(g, v.id, nid):
+            a, d = _alias_defs(g, dvv, dn.id, attrs, depth + 1)
+            al, dv = al or a, dv or d
+        return al, dv
+    else:
+        return False, _mentions(v, attrs)
+    al = dv = False
+    for x in parts:
+        a, d = _alias_defs(g, x, nid, attrs, depth + 1)
+        al, dv = al or a, dv or d
+    return al, dv
+
+
+def _env_writes(f):
+    """[(ast node to locate, base expr, kind, key expr or None)]"""
+    out = []
+    for s in ast.walk(f.node):
+        if isinstance(s, (ast.Assign, ast.AugAssign, ast.Delete)):
+            tg = s.targets if not isinstance(s, ast.AugAssign) \
+                else [s.target]
+            kind = 'store' if isinstance(s, ast.Assign) else \
+                'del' if isinstance(s, ast.Delete) else 'aug'
+            for t in tg:
+                if isinstance(t, ast.Subscript):
+                    out.append((s, t.value, kind, t.slice))
+        elif isinstance(s, ast.Call) and isinstance(s.func, ast.Attribute) \
+                and s.func.attr in _ENV_WRITES:
+            out.append((s, s.func.value, s.func.attr, None))
+    return out
+
+
+def r20_15(prog, rep, rid='R20.15'):
+    rep.rule(rid, 'a mapping a request handler writes request data into is a '
+             'fresh copy of the worker-wide task environment (the attribute '
+             'built from os.environ at construction), not the attribute '
+             'itself or an alias of it (a constant key every request '
+             'overwrites excepted)', minimum=2)
+    classes = [prog.cls(*WK), prog.cls(*WD)]
+    attrs, builders = _env_attrs(classes)
+    if not attrs:
+        return
+    hist = ('a request with environment {"X": "1"} followed by a request '
+            'without X on the same worker: the second request runs with X=1')
+    for C in classes:
+        for mname, f in sorted(C.methods.items()):
+            if id(f.node) in builders:
+                continue
+            ws = _env_writes(f)
+            if not ws:
+                continue
+            g = cfg_of(f)
+            smap = I.stmt_node_map(g)
+            for s, base, kind, key in ws:
+                n = smap.get(id(s))
+                if n is None:
+                    continue
+                if isinstance(base, ast.Name):
+                    alias, derived = _alias_defs(g, base, n.id, attrs)
+                elif isinstance(base, ast.Attribute) and \
+                        unparse(base) in attrs:
+                    alias = derived = True
+                else:
+                    continue
+                if not derived:
+                    continue
+                rep.saw(f)
+                ok = not alias
+                if alias and kind == 'store' and \
+                        isinstance(key, ast.Constant):
+                    # the same key is written by every request that gets
+                    # here: the next one replaces it before it runs
+                    if not isinstance(base, ast.Name):
+                        ok = True
+                    else:
+                        ok = all(must_pass(g, dn.id, g.exit.id, [n.id],
+                                           skip_exc=True)
+                                 for dn, _ in reaching_defs(g, base.id, n.id)
+                                 ) or not guards(g, n.id)
+                rep.check(ok, rid, f, 'request data is written into a fresh '
+                          'copy of the task environment',
+                          construct='envwrite:%s' % kind,
+                          message='%s: `%s` writes into `%s`, which is %s the '
+                          'worker-wide task environment %s, not a copy of it: '
+                          'what this request sets stays there for every '
+                          'later request of the worker'
+                          % (f.qual, short(s, 50), unparse(base),
+                             'an alias of' if isinstance(base, ast.Name)
+                             else 'itself', '/'.join(sorted(attrs))),
+                          loc=f.loc(s), history=hist)
+
+
+# ------------------------------------------------------------------------------
 # R20.11  the exit code of a child process is read after the process was
 #         waited for (fresh value)
 #
@@ -4591,6 +4749,7 @@ def run(prog, rep, tier):
     r20_4(prog, rep)
     r20_5(prog, rep)
     r20_6(prog, rep)
+    rep.attempt(r20_15, prog, rep)
     r20_11(prog, rep, tier=tier)
     r20_12(prog, rep)
     r20_9(prog, rep, tier=tier)
@@ -5383,5 +5542,36 @@ SILENT += [
              "                self._log.debug('* relay %d tasks to raptor %s', len(tasks), name)\n"
              "                self._raptor_queues[name].put(tasks)\n")]),
 ]
+
+_PENV  = "            env  = dict(self._task_env)\n            env.update(task['description']['environment'])\n"
+_SENV  = "            env = dict(self._task_env)\n            env.update(task['description']['environment'])\n"
+_RENV  = "                env = self._task_env\n                env['RP_TASK_ID'] = task['uid']\n"
+
+MUTATIONS += [
+    dict(name='R20.15 _dispatch_proc updates the worker-wide task environment through an alias (k2)', rules=('R20.15',), edits=[
+        (_W, _PENV, "            env  = self._task_env\n            env.update(task['description'].get('environment') or {})\n")]),
+    dict(name='R20.15 _dispatch_shell: alias through a second local, keys stored one by one', rules=('R20.15',), edits=[
+        (_W, _SENV, "            base = self._task_env\n            env = base\n            for k, v in task['description']['environment'].items():\n                env[k] = v\n")]),
+    dict(name='R20.15 _dispatch_shell updates the attribute itself', rules=('R20.15',), edits=[
+        (_W, _SENV, "            self._task_env.update(task['description']['environment'])\n            env = self._task_env\n")]),
+    dict(name='R20.15 _request_cb merges the request environment into the shared mapping', rules=('R20.15',), edits=[
+        (_D, _RENV, _RENV + "                env.update(task.get('environment') or {})\n")]),
+    dict(name='R20.15 _dispatch_proc: copy only when the request has an environment', rules=('R20.15',), edits=[
+        (_W, _PENV, "            env  = self._task_env\n            if not task['description'].get('environment'):\n                env = dict(env)\n            env.update(task['description']['environment'])\n")]),
+]
+
+SILENT += [
+    dict(name='_dispatch_proc: environment copied with .copy(), renamed local', edits=[
+        (_W, _PENV, "            penv = self._task_env.copy()\n            penv.update(task['description']['environment'])\n            env  = penv\n")]),
+    dict(name='_dispatch_shell: alias first, then copied before the update', edits=[
+        (_W, _SENV, "            base = self._task_env\n            env = dict(base)\n            renv = task['description']['environment']\n            env.update(renv)\n")]),
+    dict(name='_dispatch_proc: merged with a dict display', edits=[
+        (_W, _PENV, "            env  = {**self._task_env, **task['description']['environment']}\n")]),
+    dict(name='_dispatch_shell: keys stored one by one into a comprehension copy', edits=[
+        (_W, _SENV, "            env = {k: v for k, v in self._task_env.items()}\n            for k, v in task['description']['environment'].items():\n                env[k] = v\n")]),
+    dict(name='_request_cb: per-request copy of the task environment', edits=[
+        (_D, _RENV, "                env = dict(self._task_env)\n                env['RP_TASK_ID'] = task['uid']\n")]),
+]
+
 
 SILENT += corpus_variants('C20')
